@@ -43,8 +43,9 @@ func main() {
 				un = []string{}
 			}
 			return map[string]any{"entry_points": codec.Names(), "entry_point_count": len(codec.Names()),
-				"scan_candidates": len(all), "uncovered_candidates": un,
-				"scan_rule":       "go/ast scan of the repository's non-internal, non-test packages for exported functions / methods named Unmarshal*, SetBytes, FromBytes, Import, Unpack, Verify*, Decapsulate*, Open, Decrypt*, FromString, ExtractFromCiphertext, CouldDecrypt, Finalize, CombineSignShares, Recover that return an error or bool; uncovered = not claimed by any registry / protocol-check pattern"}
+				"receiver_reuse_entries": len(codec.ReuseNames()),
+				"scan_candidates":        len(all), "uncovered_candidates": un,
+				"scan_rule": "go/ast scan of the repository's non-internal, non-test packages for exported functions / methods named Unmarshal*, SetBytes, FromBytes, Import, Unpack, Verify*, Decapsulate*, Open, Decrypt*, FromString, ExtractFromCiphertext, CouldDecrypt, Finalize, CombineSignShares, Recover that return an error or bool; uncovered = not claimed by any registry / protocol-check pattern"}
 		},
 		RunsFn: func(tier string) int {
 			n := len(codec.Directed(tier, nil, false))
